@@ -7,6 +7,7 @@ Fault matrix: dispatcher x exit path x failing producer stage, enumerated by the
 first draws of the tape (all cells are hit in every tier; evidence lists them).
 """
 import asyncio
+import functools
 import collections
 import datetime
 import logging
@@ -241,6 +242,9 @@ def run(tape, prop, tier):
                         del S["ev_inflight"][ev.eid]
             return h
 
+        async def call_with(fn, ev):
+            return await fn(ev)
+
         def sync_wrapper(hid, h):
             # a plain callable returning an awaitable is a legal handler; it may raise before returning the coroutine
             def call(ev):
@@ -259,7 +263,11 @@ def run(tape, prop, tier):
                 hid += 1
                 hs.append(hid)
                 h_ = mk_handler(hid)
-                d.subscribe(s, sync_wrapper(hid, h_) if hid % 3 == 0 else h_)
+                if hid % 4 == 1:
+                    # functools.partial objects and callable instances are legal handlers too
+                    d.subscribe(s, functools.partial(call_with, h_))
+                else:
+                    d.subscribe(s, sync_wrapper(hid, h_) if hid % 3 == 0 else h_)
             handlers_of[si] = hs
         src_of_event = {}
         for si, s in enumerate(srcs):
